@@ -698,4 +698,538 @@ theorem reprOpt_root_aux (H : Hash) (opts : List Ty) (k : Nat) (v : Val) (n : No
       exact reprOpt_root_aux H ts k v n hwf.2 h
 end
 
+/-! ## 5. reading the whole content back through the view API -/
+
+theorem readLen_lenNode (H : Hash) (k : Nat) (h : k < 2 ^ 256) : readLen H (lenNode k) = k := by
+  rw [readLen, lenNode_root, fromLE_toLE' 32 k h]
+
+theorem listLength_mixin (H : Hash) (c : Node) (k : Nat) (h : k < 2 ^ 256) :
+    listLength H (mixInNode c k) = some k := by
+  simp [listLength, mixInNode, getRight, readLen_lenNode H k h]
+
+theorem allSome_range_getElem {β} (l : List β) (f : Nat → Option β)
+    (h : ∀ i (hi : i < l.length), f i = some l[i]) :
+    allSome ((List.range l.length).map f) = some l := by
+  induction l generalizing f with
+  | nil => rfl
+  | cons a l ih =>
+    rw [List.length_cons, List.range_succ_eq_map, List.map_cons, List.map_map]
+    have h0 := h 0 (by simp)
+    have := ih (f ∘ Nat.succ) (fun i hi => by
+      have h1 := h (i + 1) (by simpa using hi)
+      rw [List.getElem_cons_succ] at h1
+      exact h1)
+    simp only [h0, allSome, this, Option.map_some]
+    rfl
+
+theorem bitsToNat_testBit (g : List Bool) (k : Nat) :
+    (bitsToNat g / 2 ^ k % 2 == 1) = g[k]?.getD false := by
+  induction g generalizing k with
+  | nil => simp
+  | cons b g ih =>
+    cases k with
+    | zero => cases b <;> simp <;> omega
+    | succ k =>
+      have h2 : ((if b then 1 else 0) + 2 * bitsToNat g) / 2 = bitsToNat g := by
+        cases b <;> simp <;> omega
+      have hp : 2 ^ (k + 1) = 2 * 2 ^ k := by rw [Nat.pow_succ, Nat.mul_comm]
+      rw [bitsToNat_cons, hp, ← Nat.div_div_eq_div_mul, h2, ih]
+      simp
+
+theorem packBits_length (bs : List Bool) :
+    (packBits bs).length = ((bs.length + 7) / 8 + 31) / 32 := by
+  rw [packBits_eq_pack, Spec.pack, bytesToChunks_length, bitsToBytes_length]
+
+theorem bitOfChunk_packBits (bs : List Bool) (i : Nat) (hi : i < bs.length)
+    (hj : i / 256 < (packBits bs).length) :
+    bitOfChunk ((packBits bs)[i / 256]) i = bs[i] := by
+  have hB : (bitsToBytes bs).length = (bs.length + 7) / 8 := bitsToBytes_length bs
+  have hg32 : i / 256 < (groups 32 (bitsToBytes bs)).length := by simpa [packBits] using hj
+  have hg8 : i / 8 < (groups 8 bs).length := by rw [groups_length (by decide)]; omega
+  have e1 : (packBits bs)[i / 256] =
+      ((bitsToBytes bs).drop (32 * (i / 256))).take 32
+        ++ zeros (32 - (((bitsToBytes bs).drop (32 * (i / 256))).take 32).length) := by
+    simp only [packBits, List.getElem_map, groups_getElem (by decide : 0 < 32) _ _ hg32]
+  have hk : (i % 256) / 8 < (((bitsToBytes bs).drop (32 * (i / 256))).take 32).length := by
+    simp only [List.length_take, List.length_drop, hB]; omega
+  have e2 : 32 * (i / 256) + i % 256 / 8 = i / 8 := by omega
+  have hi8 : i / 8 < (bitsToBytes bs).length := by omega
+  have e3 : (bitsToBytes bs)[i / 8] = UInt8.ofNat (bitsToNat ((bs.drop (8 * (i / 8))).take 8)) := by
+    simp only [bitsToBytes, List.getElem_map, groups_getElem (by decide : 0 < 8) _ _ hg8]
+  unfold bitOfChunk
+  rw [e1, List.getD_eq_getElem?_getD, List.getElem?_append_left hk, List.getElem?_eq_getElem hk,
+    Option.getD_some, List.getElem_take, List.getElem_drop]
+  simp only [e2, e3]
+  rw [toNat_ofNat_bitsToNat (by simp only [List.length_take]; omega), bitsToNat_testBit]
+  have hlt : i % 8 < 8 := by omega
+  rw [List.getElem?_take_of_lt hlt, List.getElem?_drop]
+  have e4 : 8 * (i / 8) + i % 8 = i := by omega
+  simp [e4, hi]
+
+/-- reading bit `i` of a bitfield stored in a chunk tree -/
+theorem read_bit_elem (H : Hash) (bs : List Bool) (d : Nat) (n : Node)
+    (hct : ChunkTree H d ((packBits bs).map .leaf) n) (i : Nat) (hi : i < bs.length) :
+    (getAt n (i / 256) d).map (fun c => bitOfChunk (c.root H) i) = some bs[i] ∧ i / 256 < 2 ^ d := by
+  have hj : i / 256 < (packBits bs).length := by rw [packBits_length]; omega
+  have hj' : i / 256 < ((packBits bs).map Node.leaf).length := by simpa using hj
+  have hle := ct_length_le hct
+  refine ⟨?_, by omega⟩
+  rw [ct_get hct hj']
+  simp only [Option.map_some, List.getElem_map, Node.root, bitOfChunk_packBits bs i hi hj]
+
+theorem flatMap_root_map_leaf (H : Hash) (cs : List Chunk) :
+    (cs.map Node.leaf).flatMap (fun c => c.root H) = cs.flatten := by
+  induction cs with
+  | nil => rfl
+  | cons c cs ih => simp only [List.map_cons, List.flatMap_cons, Node.root, ih, List.flatten_cons]
+
+/-- reading all chunks of a chunk tree of leaves -/
+theorem readChunks_ct (H : Hash) (d : Nat) (cs : List Chunk) (n : Node)
+    (hct : ChunkTree H d (cs.map .leaf) n) :
+    readChunks H n d cs.length = some cs.flatten := by
+  unfold readChunks
+  have key := allSome_range_getElem (cs.map Node.leaf) (fun i => getAt n i d)
+    (fun i hi => ct_get hct hi)
+  rw [List.length_map] at key
+  rw [key, Option.map_some, flatMap_root_map_leaf]
+
+/-- the two read paths of byte vectors / byte lists -/
+theorem read_bytes_ct (H : Hash) (bs : List UInt8) (d : Nat) (c : Node)
+    (hct : ChunkTree H d ((packBytes bs).map .leaf) c) :
+    (if d = 0 then some (Val.bytes ((c.root H).take bs.length))
+      else (readChunks H c d ((bs.length + 31) / 32)).map fun b => Val.bytes (b.take bs.length))
+      = some (.bytes bs) := by
+  split
+  · next hd =>
+    subst hd
+    by_cases h0 : bs.length = 0
+    · have : bs = [] := List.eq_nil_of_length_eq_zero h0
+      subst this
+      simp
+    · have hle := ct_length_le hct
+      simp only [List.length_map, packBytes_length, Nat.pow_zero] at hle
+      rw [packBytes_short bs (by omega) (by omega)] at hct
+      have := (ct_zero_singleton_iff H _ c).1 (by simpa using hct)
+      subst this
+      simp [Node.root]
+  · rw [← packBytes_length, readChunks_ct H d (packBytes bs) c hct, Option.map_some,
+      packBytes_eq_pack, Spec.pack, take_bytesToChunks_flatten]
+
+theorem flatMap_toLE_slice (size : Nat) (l : List Nat) (r : Nat) (hr : r < l.length) :
+    ((l.flatMap fun v => toLE size v).drop (r * size)).take size = toLE size l[r] := by
+  induction l generalizing r with
+  | nil => simp at hr
+  | cons a l ih =>
+    cases r with
+    | zero =>
+      simp only [Nat.zero_mul, List.drop_zero, List.flatMap_cons, List.getElem_cons_zero]
+      exact List.take_left' (toLE_length size a)
+    | succ r =>
+      have e : (r + 1) * size = size + r * size := by rw [Nat.succ_mul]; omega
+      rw [e, ← List.drop_drop, List.flatMap_cons, List.drop_left' (toLE_length size a),
+        List.getElem_cons_succ]
+      exact ih r (by simpa using hr)
+
+theorem packInts_getElem_slice (size : Nat) (nums : List Nat) (i : Nat) (hper : 0 < 32 / size)
+    (hi : i < nums.length) (hj : i / (32 / size) < (packInts size nums).length) :
+    (((packInts size nums)[i / (32 / size)]).drop ((i % (32 / size)) * size)).take size
+      = toLE size nums[i] := by
+  have hg : i / (32 / size) < (groups (32 / size) nums).length := by simpa [packInts] using hj
+  have hdm := Nat.div_add_mod i (32 / size)
+  have hmod := Nat.mod_lt i hper
+  generalize hP : 32 / size = per at *
+  have e1 : (packInts size nums)[i / per] =
+      (((nums.drop (per * (i / per))).take per) ++
+        List.replicate (per - ((nums.drop (per * (i / per))).take per).length) 0).flatMap
+        fun v => toLE size v := by
+    simp only [packInts, hP, List.getElem_map, groups_getElem hper _ _ hg]
+  have hr : i % per < ((nums.drop (per * (i / per))).take per).length := by
+    simp only [List.length_take, List.length_drop]; omega
+  rw [e1, flatMap_toLE_slice size _ (i % per) (by simp only [List.length_append]; omega),
+    List.getElem_append_left hr, List.getElem_take, List.getElem_drop]
+  simp only [hdm]
+
+theorem packInts_length' (et : Ty) (hwf : et.wf = true) (hb : et.isBasic = true) (ns : List Nat) :
+    (packInts et.basicSize ns).length = chunkLen et ns.length := by
+  have hper : 0 < 32 / et.basicSize := by
+    rcases basicSize_cases et hwf hb with h | h | h | h | h | h <;> rw [h] <;> decide
+  rw [packInts_length _ hper]
+  simp [chunkLen, hb]
+
+/-- `basic_view_from_backing` on a chunk whose slice `j` is the encoding of `v` returns `v` -/
+theorem readBasicAt_slice (H : Hash) (et : Ty) (v : Val) (hb : et.isBasic = true)
+    (hwt : WT et v = true) (c : Chunk) (j : Nat)
+    (hs : (c.drop (j * et.basicSize)).take et.basicSize = toLE et.basicSize (numOf v)) :
+    readBasicAt H et (.leaf c) j = some v := by
+  cases et <;> simp [Ty.isBasic] at hb
+  · rename_i nb
+    cases v <;> simp [WT] at hwt
+    rename_i x
+    simp only [Ty.basicSize, numOf] at hs
+    simp only [readBasicAt, Node.root, Ty.basicSize, hs, fromLE_toLE' nb x hwt]
+  · cases v <;> simp [WT] at hwt
+    rename_i x
+    simp only [Ty.basicSize, numOf] at hs
+    simp only [readBasicAt, Node.root, Ty.basicSize, hs]
+    have : x = 0 ∨ x = 1 := by omega
+    rcases this with rfl | rfl <;> simp [toLE]
+
+/-- reading element `i` of a packed sequence of basic values stored in a chunk tree -/
+theorem read_packed_elem (H : Hash) (et : Ty) (vs : List Val) (d : Nat) (n : Node)
+    (hwf : et.wf = true) (hb : et.isBasic = true) (hwt : ∀ v ∈ vs, WT et v = true)
+    (hct : ChunkTree H d ((packInts et.basicSize (vs.map numOf)).map .leaf) n)
+    (i : Nat) (hi : i < vs.length) :
+    ((getAt n (i / (32 / et.basicSize)) d).bind
+        fun c => readBasicAt H et c (i % (32 / et.basicSize))) = some vs[i] ∧
+      i / (32 / et.basicSize) < 2 ^ d := by
+  have hper : 0 < 32 / et.basicSize := by
+    rcases basicSize_cases et hwf hb with h | h | h | h | h | h <;> rw [h] <;> decide
+  have hp := DefaultNode.packed_chunk_lt et hwf hb vs.length i hi
+  have hlen := packInts_length' et hwf hb (vs.map numOf)
+  rw [List.length_map] at hlen
+  have hj : i / (32 / et.basicSize) < (packInts et.basicSize (vs.map numOf)).length := by
+    rw [hlen]; exact hp.1
+  have hj' : i / (32 / et.basicSize) <
+      ((packInts et.basicSize (vs.map numOf)).map Node.leaf).length := by simpa using hj
+  have hle := ct_length_le hct
+  refine ⟨?_, by omega⟩
+  rw [ct_get hct hj']
+  simp only [Option.bind_some, List.getElem_map]
+  apply readBasicAt_slice H et vs[i] hb (hwt _ (List.getElem_mem _))
+  have := packInts_getElem_slice et.basicSize (vs.map numOf) i hper (by simpa using hi) hj
+  simpa using this
+
+
+mutual
+/-- every list / bitlist / bytelist limit occurring in the type is `< 2^256` (so that the length
+    stored in the 32-byte length leaf is read back exactly) -/
+def limitsOk : Ty → Bool
+  | .uint _ => true
+  | .bool => true
+  | .bitvector _ => true
+  | .bytevector _ => true
+  | .bitlist lim => lim < 2 ^ 256
+  | .bytelist lim => lim < 2 ^ 256
+  | .vector t _ => limitsOk t
+  | .list t lim => lim < 2 ^ 256 && limitsOk t
+  | .container fs => limitsOkList fs
+  | .union _ opts => limitsOkList opts
+def limitsOkList : List Ty → Bool
+  | [] => true
+  | t :: ts => limitsOk t && limitsOkList ts
+end
+
+mutual
+theorem repr_read_aux (H : Hash) (t : Ty) (v : Val) (n : Node) (hwf : t.wf = true)
+    (hlim : limitsOk t = true) (h : Impl.Repr H t v n) : readVal H t n = some v := by
+  cases t with
+  | uint nb =>
+    cases v <;> simp only [Impl.Repr] at h
+    rename_i x
+    obtain ⟨hx, rfl⟩ := h
+    simp only [readVal]
+    exact readBasicAt_slice H (.uint nb) (.num x) rfl (by simp [WT, hx]) _ 0
+      (by simpa [Ty.basicSize, numOf] using take_chunkOfLE nb x)
+  | bool =>
+    cases v <;> simp only [Impl.Repr] at h
+    rename_i x
+    obtain ⟨hx, rfl⟩ := h
+    simp only [readVal]
+    exact readBasicAt_slice H .bool (.num x) rfl (by simp [WT, hx]) _ 0
+      (by simpa [Ty.basicSize, numOf] using take_chunkOfLE 1 x)
+  | bitvector len =>
+    cases v <;> simp only [Impl.Repr] at h
+    rename_i bs
+    obtain ⟨hlen, hct⟩ := h
+    subst hlen
+    simp only [readVal]
+    rw [allSome_range_getElem bs _ (fun i hi => (read_bit_elem H bs _ n hct i hi).1)]
+    rfl
+  | bitlist lim =>
+    cases v <;> simp only [Impl.Repr] at h
+    rename_i bs
+    obtain ⟨hlen, c, rfl, hct⟩ := h
+    simp [limitsOk] at hlim
+    simp only [readVal, listLength_mixin H c _ (by omega : bs.length < 2 ^ 256)]
+    have key : ∀ i (hi : i < bs.length),
+        (getAt (mixInNode c bs.length) (i / 256) (getDepth ((lim + 255) / 256) + 1)).map
+          (fun c => bitOfChunk (c.root H) i) = some bs[i] := by
+      intro i hi
+      have := read_bit_elem H bs _ c hct i hi
+      rw [mixInNode, getAt_mixin _ _ this.2]
+      exact this.1
+    rw [allSome_range_getElem bs _ key]
+    rfl
+  | bytevector len =>
+    cases v <;> simp only [Impl.Repr] at h
+    rename_i bs
+    obtain ⟨hlen, hct⟩ := h
+    subst hlen
+    simp only [readVal]
+    exact read_bytes_ct H bs _ n hct
+  | bytelist lim =>
+    cases v <;> simp only [Impl.Repr] at h
+    rename_i bs
+    obtain ⟨hlen, c, rfl, hct⟩ := h
+    simp [limitsOk] at hlim
+    simp only [readVal, mixInNode, getLeft, getRight,
+      readLen_lenNode H _ (by omega : bs.length < 2 ^ 256)]
+    rw [if_neg (by omega)]
+    exact read_bytes_ct H bs _ c hct
+  | vector et len =>
+    cases v <;> simp only [Impl.Repr] at h
+    rename_i vs
+    simp [Ty.wf] at hwf
+    simp only [limitsOk] at hlim
+    obtain ⟨hlen, h⟩ := h
+    subst hlen
+    simp only [readVal]
+    by_cases hb : et.isBasic = true
+    · simp only [hb, if_true] at h ⊢
+      rw [allSome_range_getElem vs _
+        (fun i hi => (read_packed_elem H et vs _ n hwf.2 hb h.1 h.2 i hi).1)]
+      rfl
+    · simp only [hb, Bool.false_eq_true, if_false] at h ⊢
+      obtain ⟨ns, hall, hct⟩ := h
+      have hl := allRel_length hall
+      have key : ∀ i (hi : i < vs.length),
+          ((getAt n i (getDepth (chunkLen et vs.length))).bind fun c => readVal H et c)
+            = some vs[i] := by
+        intro i hi
+        have hi' : i < ns.length := by omega
+        rw [ct_get hct hi']
+        exact repr_read_aux H et vs[i] ns[i] hwf.2 hlim (allRel_get hall i hi hi')
+      rw [allSome_range_getElem vs _ key]
+      rfl
+  | list et lim =>
+    cases v <;> simp only [Impl.Repr] at h
+    rename_i vs
+    simp [Ty.wf] at hwf
+    simp [limitsOk] at hlim
+    obtain ⟨hlen, c, rfl, h⟩ := h
+    simp only [readVal, listLength_mixin H c _ (by omega : vs.length < 2 ^ 256)]
+    by_cases hb : et.isBasic = true
+    · simp only [hb, if_true] at h ⊢
+      have key : ∀ i (hi : i < vs.length),
+          ((getAt (mixInNode c vs.length) (i / (32 / et.basicSize))
+              (getDepth (chunkLen et lim) + 1)).bind
+            fun c => readBasicAt H et c (i % (32 / et.basicSize))) = some vs[i] := by
+        intro i hi
+        have := read_packed_elem H et vs _ c hwf hb h.1 h.2 i hi
+        rw [mixInNode, getAt_mixin _ _ this.2]
+        exact this.1
+      rw [allSome_range_getElem vs _ key]
+      rfl
+    · simp only [hb, Bool.false_eq_true, if_false] at h ⊢
+      obtain ⟨ns, hall, hct⟩ := h
+      have hl := allRel_length hall
+      have hle := ct_length_le hct
+      have key : ∀ i (hi : i < vs.length),
+          ((getAt (mixInNode c vs.length) i (getDepth (chunkLen et lim) + 1)).bind
+            fun c => readVal H et c) = some vs[i] := by
+        intro i hi
+        have hi' : i < ns.length := by omega
+        rw [mixInNode, getAt_mixin _ _ (by omega), ct_get hct hi']
+        exact repr_read_aux H et vs[i] ns[i] hwf hlim.2 (allRel_get hall i hi hi')
+      rw [allSome_range_getElem vs _ key]
+      rfl
+  | container fs =>
+    cases v <;> simp only [Impl.Repr] at h
+    rename_i vs
+    simp [Ty.wf] at hwf
+    simp only [limitsOk] at hlim
+    obtain ⟨ns, hf, hct⟩ := h
+    simp only [readVal]
+    rw [reprFields_read_aux H fs vs ns hwf.2 hlim hf n (getDepth fs.length) 0 (fun i hi => by
+      rw [Nat.zero_add, ct_get hct hi, List.getElem?_eq_getElem hi])]
+    rfl
+  | union hasNone opts =>
+    cases v <;> simp only [Impl.Repr] at h
+    rename_i sel v
+    simp [Ty.wf] at hwf
+    simp only [limitsOk] at hlim
+    obtain ⟨hsel, c, rfl, h⟩ := h
+    have hsel' : sel < 2 ^ 256 := by omega
+    simp only [readVal, getLeft, getRight, readLen_lenNode H sel hsel']
+    rw [if_neg (by omega)]
+    by_cases hc : (hasNone && sel == 0) = true
+    · simp only [hc, if_true] at h ⊢
+      obtain ⟨rfl, rfl⟩ := h
+      simp only [Bool.and_eq_true, beq_iff_eq] at hc
+      rw [hc.2]
+      simp [Node.root, zeroNode]
+    · simp only [hc, Bool.false_eq_true, if_false] at h ⊢
+      rw [reprOpt_read_aux H opts _ v c hwf.2 hlim h]
+      rfl
+
+theorem reprFields_read_aux (H : Hash) (fs : List Ty) (vs : List Val) (ns : List Node)
+    (hwf : Ty.wfList fs = true) (hlim : limitsOkList fs = true) (h : ReprFields H fs vs ns)
+    (n : Node) (depth k : Nat) (hget : ∀ i, i < ns.length → getAt n (k + i) depth = ns[i]?) :
+    readFields H fs n depth k = some vs := by
+  cases fs with
+  | nil =>
+    cases vs with
+    | nil => simp [readFields]
+    | cons v vs => cases ns <;> simp only [ReprFields] at h
+  | cons t ts =>
+    cases vs with
+    | nil => cases ns <;> simp only [ReprFields] at h
+    | cons v vs =>
+      cases ns with
+      | nil => simp only [ReprFields] at h
+      | cons m ms =>
+        simp [Ty.wfList] at hwf
+        simp [limitsOkList] at hlim
+        simp only [ReprFields] at h
+        have ih1 := repr_read_aux H t v m hwf.1 hlim.1 h.1
+        have ih2 := reprFields_read_aux H ts vs ms hwf.2 hlim.2 h.2 n depth (k + 1) (fun i hi => by
+          have := hget (i + 1) (by simp; omega)
+          rw [List.getElem?_cons_succ] at this
+          rw [← this]; congr 1; omega)
+        have h0 := hget 0 (by simp)
+        simp only [Nat.add_zero, List.getElem?_cons_zero] at h0
+        simp only [readFields, h0, Option.bind_some, ih1, ih2]
+
+theorem reprOpt_read_aux (H : Hash) (opts : List Ty) (k : Nat) (v : Val) (c : Node)
+    (hwf : Ty.wfList opts = true) (hlim : limitsOkList opts = true) (h : ReprOpt H opts k v c) :
+    readOpt H opts k c = some v := by
+  cases opts with
+  | nil => simp only [ReprOpt] at h
+  | cons t ts =>
+    simp [Ty.wfList] at hwf
+    simp [limitsOkList] at hlim
+    cases k with
+    | zero =>
+      simp only [ReprOpt] at h
+      simp only [readOpt]
+      exact repr_read_aux H t v c hwf.1 hlim.1 h
+    | succ k =>
+      simp only [ReprOpt] at h
+      simp only [readOpt]
+      exact reprOpt_read_aux H ts k v c hwf.2 hlim.2 h
+end
+
+/-! ## 6. the statements of the task -/
+
+variable (H : Hash)
+
+/-- 1. every constructor route lands in `Repr` -/
+theorem construct_repr (t : Ty) (v : Val) (n : Node) (hwf : t.wf = true)
+    (h : Impl.construct H t v = some n) : Impl.Repr H t v n :=
+  construct_repr_aux H t v n hwf h
+
+theorem constructFields_repr (fs : List Ty) (vs : List Val) (ns : List Node)
+    (hwf : Ty.wfList fs = true) (h : Impl.constructFields H fs vs = some ns) :
+    ReprFields H fs vs ns :=
+  constructFields_repr_aux H fs vs ns hwf h
+
+theorem constructOpt_repr (opts : List Ty) (k : Nat) (v : Val) (n : Node)
+    (hwf : Ty.wfList opts = true) (h : Impl.constructOpt H opts k v = some n) :
+    ReprOpt H opts k v n :=
+  constructOpt_repr_aux H opts k v n hwf h
+
+/-- 2. the default tree represents the zero value -/
+theorem default_repr (t : Ty) (n : Node) (hwf : t.wf = true)
+    (h : Impl.defaultNode H t = some n) : Impl.Repr H t (Spec.zeroVal t) n :=
+  default_repr_aux H t n hwf h
+
+theorem defaultNodes_repr (fs : List Ty) (ns : List Node) (hwf : Ty.wfList fs = true)
+    (h : Impl.defaultNodes H fs = some ns) : ReprFields H fs (Spec.zeroVals fs) ns :=
+  defaultNodes_repr_aux H fs ns hwf h
+
+theorem defaultNodeHead_repr (opts : List Ty) (c : Node) (hwf : Ty.wfList opts = true)
+    (h : Impl.defaultNodeHead H opts = some c) : ReprOpt H opts 0 (Spec.zeroValHead opts) c :=
+  defaultNodeHead_repr_aux H opts c hwf h
+
+/-- 3. only well-typed values are represented (no well-formedness hypothesis needed) -/
+theorem repr_wt (t : Ty) (v : Val) (n : Node) (h : Impl.Repr H t v n) : WT t v = true :=
+  repr_wt_aux H t v n h
+
+theorem reprFields_wt (fs : List Ty) (vs : List Val) (ns : List Node)
+    (h : ReprFields H fs vs ns) : WTs fs vs = true :=
+  reprFields_wt_aux H fs vs ns h
+
+theorem reprOpt_wt (opts : List Ty) (k : Nat) (v : Val) (n : Node) (h : ReprOpt H opts k v n) :
+    WTopt opts k v = true :=
+  reprOpt_wt_aux H opts k v n h
+
+/-- 4. EVERY tree shape that represents `v` has the spec root -/
+theorem repr_root (t : Ty) (v : Val) (n : Node) (hwf : t.wf = true) (h : Impl.Repr H t v n) :
+    n.root H = Spec.htr H t v :=
+  repr_root_aux H t v n hwf h
+
+theorem reprFields_root (fs : List Ty) (vs : List Val) (ns : List Node)
+    (hwf : Ty.wfList fs = true) (h : ReprFields H fs vs ns) :
+    ns.map (·.root H) = Spec.htrFields H fs vs :=
+  reprFields_root_aux H fs vs ns hwf h
+
+theorem reprOpt_root (opts : List Ty) (k : Nat) (v : Val) (n : Node)
+    (hwf : Ty.wfList opts = true) (h : ReprOpt H opts k v n) :
+    n.root H = Spec.htrOpt H opts k v :=
+  reprOpt_root_aux H opts k v n hwf h
+
+/-- 5. reading the whole content through the view API returns exactly the represented value.
+    `hlim`: every list / bitlist / bytelist limit in `t` is `< 2^256` (the length leaf has 32 bytes). -/
+theorem repr_read (t : Ty) (v : Val) (n : Node) (hwf : t.wf = true) (hlim : limitsOk t = true)
+    (h : Impl.Repr H t v n) : Impl.readVal H t n = some v :=
+  repr_read_aux H t v n hwf hlim h
+
+theorem reprFields_read (fs : List Ty) (vs : List Val) (ns : List Node)
+    (hwf : Ty.wfList fs = true) (hlim : limitsOkList fs = true) (h : ReprFields H fs vs ns)
+    (n : Node) (depth k : Nat) (hget : ∀ i, i < ns.length → getAt n (k + i) depth = ns[i]?) :
+    Impl.readFields H fs n depth k = some vs :=
+  reprFields_read_aux H fs vs ns hwf hlim h n depth k hget
+
+theorem reprOpt_read (opts : List Ty) (k : Nat) (v : Val) (c : Node)
+    (hwf : Ty.wfList opts = true) (hlim : limitsOkList opts = true) (h : ReprOpt H opts k v c) :
+    Impl.readOpt H opts k c = some v :=
+  reprOpt_read_aux H opts k v c hwf hlim h
+
+/-- 6. two nodes representing the same value have the same root -/
+theorem repr_unique_root (t : Ty) (v : Val) (n n' : Node) (hwf : t.wf = true)
+    (h : Impl.Repr H t v n) (h' : Impl.Repr H t v n') : n.root H = n'.root H := by
+  rw [repr_root H t v n hwf h, repr_root H t v n' hwf h']
+
+/-- a node represents at most one value -/
+theorem repr_unique_val (t : Ty) (v v' : Val) (n : Node) (hwf : t.wf = true)
+    (hlim : limitsOk t = true) (h : Impl.Repr H t v n) (h' : Impl.Repr H t v' n) : v = v' := by
+  have h1 := repr_read H t v n hwf hlim h
+  rw [repr_read H t v' n hwf hlim h'] at h1
+  exact (Option.some.inj h1).symm
+
+/-- every well-typed value of a well-formed type is represented by its constructor tree -/
+theorem repr_exists (t : Ty) (v : Val) (hwf : t.wf = true) (hwt : WT t v = true) :
+    ∃ n, Impl.construct H t v = some n ∧ Impl.Repr H t v n := by
+  obtain ⟨n, hn⟩ := Option.isSome_iff_exists.1 (construct_isSome H t v hwf hwt)
+  exact ⟨n, hn, construct_repr H t v n hwf hn⟩
+
+/-- constructor round trip: reading a constructed tree gives the value back -/
+theorem construct_read (t : Ty) (v : Val) (n : Node) (hwf : t.wf = true)
+    (hlim : limitsOk t = true) (h : Impl.construct H t v = some n) :
+    Impl.readVal H t n = some v :=
+  repr_read H t v n hwf hlim (construct_repr H t v n hwf h)
+
+/-- the default tree and any tree representing the zero value (e.g. the explicitly constructed
+    one, or one reached by appends and pops) have the same root -/
+theorem default_root_eq_of_repr (t : Ty) (n m : Node) (hwf : t.wf = true)
+    (hd : Impl.defaultNode H t = some n) (hm : Impl.Repr H t (Spec.zeroVal t) m) :
+    n.root H = m.root H :=
+  repr_unique_root H t _ n m hwf (default_repr H t n hwf hd) hm
+
+/-! Non-vacuity: `Repr` admits a summarised and an expanded tree for the same value. -/
+example : Impl.Repr H (.list (.uint 8) 8) (.seq []) (mixInNode (zeroNode H 1) 0) := by
+  simp only [Impl.Repr]
+  refine ⟨by simp, _, rfl, ?_⟩
+  have hd : getDepth (chunkLen (.uint 8) 8) = 1 := by decide
+  simp only [Ty.isBasic, if_true, List.map_nil, packInts_nil, hd]
+  exact ⟨by simp, ct_zero H 1⟩
+
+example : Impl.Repr H (.list (.uint 8) 8) (.seq [])
+    (mixInNode (.pair (zeroNode H 0) (zeroNode H 0)) 0) := by
+  simp only [Impl.Repr]
+  refine ⟨by simp, _, rfl, ?_⟩
+  have hd : getDepth (chunkLen (.uint 8) 8) = 1 := by decide
+  simp only [Ty.isBasic, if_true, List.map_nil, packInts_nil, hd]
+  exact ⟨by simp, ct_nil_of_isZero (.pair 0 _ _ (.summary 0) (.summary 0))⟩
+
 end Rmk.ReprBasics
